@@ -23,6 +23,7 @@ var (
 func (node *Node) processBlocks(ctx context.Context) error {
 
 	for !node.isStopping() {
+		verifPoint("proc.loop")
 
 		block, height, refeederActive := node.blockRefeeder.GetBlock()
 		if refeederActive {
